@@ -33,8 +33,7 @@ def run(ctx):
     env = st.rocfl_env(os.path.join(ctx.tmp, "home"))
     quick = ctx.quick()
     plans, out, stats = footlib.run_all(ctx, env, n_worlds=12 if quick else 72, n_random=10 if quick else 30,
-                                        with_validity=True, fault_budget=2 if quick else 8,
-                                        known_worlds=2 if footlib.known_registered(ctx) else 0)
+                                        with_validity=True, fault_budget=2 if quick else 8)
     footlib.evaluate(ctx, "C12", out, stats)
     ctx.coverage["worlds"] = ["%s/%s" % (l, "ext-missing-parent" if m else ("ext" if e else "default")) for l, e, m in plans]
     ctx.level = "proof"
@@ -43,7 +42,7 @@ def run(ctx):
         "create_dir_all of a staging (or storage) root that does not exist yet also creates its missing ancestor directories: the zone of the theorems and of the oracle admits exactly these mkdir calls outside the two roots",
         "paths are resolved lexically (no symbolic links planted inside the roots by a third party); strace sees every mutating system call (rocfl uses no mmap / io_uring writes)",
         "the storage-root relative root of an id under a layout is taken from the real StorageLayout::map_object_id (harness); its agreement with Model/Layout.v is C11's correspondence; C12_hashed_layouts_safe is stated over Model/Layout.v",
-        "known finding excluded from C12_ops_stay_out_of_other_objects: an external mv whose named source lies under (or contains) the storage root or the staging root",
+        "the named sources of an external mv: the refusal of sources inside the repository (fix 128b230) decides on fs::canonicalize of the source; the model takes the canonical paths as a second input (o_csrcs, computed by the driver with realpath) and C12_ops_stay_out_of_other_objects assumes o_csrcs = o_srcs (no symbolic link in a named source); sources that reach the repository through symbolic links or `..` spellings are covered by the correspondence and the model-free oracle only",
         "S3 is out of scope",
     ]
     return common.finish_with_proof(
